@@ -87,6 +87,12 @@ AttemptOutcome(npts, nparams, verdict) ==
 (* does attempt k run a fit at all?  never when the window is too narrow                   *)
 AttemptFits(npts, nparams) == npts >= nparams
 
+(* generic selection among the outcomes of the attempts made in order: the first success,  *)
+(* otherwise the first attempt                                                             *)
+SelectOf(outs) ==
+    LET succ == {k \in 1..Len(outs) : outs[k] = "success"}
+    IN IF succ # {} THEN CHOOSE k \in succ : \A q \in succ : k <= q ELSE 1
+
 (* result of the whole loop for one peak.  nps[k] = parameter count of combination k,      *)
 (* script[k] = verdict of combination k.                                                   *)
 LoopResultOf(npts, nps, script) ==
@@ -127,4 +133,11 @@ SumPv(res, S, x) == IF S = {} THEN 0
                          IN res[i].pv[x] + SumPv(res, S \ {i}, x)
 
 RemoveOf(inp, res) == [x \in 1..Len(inp) |-> inp[x] - SumPv(res, Covering(res, x), x)]
+
+(* pointwise form for recorded float data.  cover: 0 = outside every successful window,    *)
+(* 1 = inside at least one, 2 = exactly on a window edge (either reading is accepted);     *)
+(* same = output bit-identical to input; subok = output equals input minus the peaks of    *)
+(* all covering successful results.                                                        *)
+RemovePointOk(cover, same, subok) ==
+    IF cover = 0 THEN same ELSE IF cover = 1 THEN subok ELSE (same \/ subok)
 =============================================================================
